@@ -82,6 +82,8 @@ type Config struct {
 	Preload    bool // put identities into the keyring before the shim is built
 	// LockFaultPct: percentage of lock/unlock requests the underlying agent refuses (failure or garbage reply).
 	LockFaultPct int
+	// FragmentPct: percentage of honest replies the underlying agent writes in several pieces.
+	FragmentPct int
 	// Plan, if set, is installed on the underlying agent after construction.
 	Weights map[string]int
 }
@@ -259,18 +261,16 @@ func New(r *rand.Rand, cfg Config, st *Stats) (*Engine, error) {
 		return nil, err
 	}
 	e.Shim = sh
-	if cfg.LockFaultPct > 0 {
+	if cfg.LockFaultPct > 0 || cfg.FragmentPct > 0 {
 		pr := rand.New(rand.NewSource(r.Int63()))
 		var pmu sync.Mutex
 		e.Ag.SetPlan(func(idx int, req []byte) wire.Action {
-			if len(req) > 0 && (req[0] == 22 || req[0] == 23) {
-				pmu.Lock()
-				defer pmu.Unlock()
-				if pr.Intn(100) < cfg.LockFaultPct {
-					return wire.Action{Kind: []int{wire.Failure, wire.Garbage}[pr.Intn(2)]}
-				}
+			pmu.Lock()
+			defer pmu.Unlock()
+			if len(req) > 0 && (req[0] == 22 || req[0] == 23) && pr.Intn(100) < cfg.LockFaultPct {
+				return wire.Action{Kind: []int{wire.Failure, wire.Garbage}[pr.Intn(2)]}
 			}
-			return wire.Action{Kind: wire.Honest}
+			return wire.Action{Kind: wire.Honest, Fragment: pr.Intn(100) < cfg.FragmentPct}
 		})
 	}
 	return e, nil
